@@ -91,7 +91,11 @@ class Sym:
             return ("cfn", c["fn"])
         if "bytes" in c:
             return ("cb", bytes(c["bytes"]))
-        return ("c?", c.get("dbg", ""))
+        d = c.get("dbg", "")
+        if "::promoted[" in d:
+            from .common import norm as _norm
+            return ("promoted", _norm(d))
+        return ("c?", d)
 
     def local(self, l, depth):
         if depth > MAXD or not self.single(l):
